@@ -606,7 +606,7 @@ pub fn cases(tier: Tier) -> Vec<Case> {
 		v.push(Case::Expired { blocks });
 	}
 	// the same with a custom minimum final CLTV delta stored next to the expiry (several byte patterns)
-	for delta in if th { vec![43u16, 120, 144, 255, 256, 257, 512, 1000] } else { vec![120u16, 144, 256] } {
+	for delta in if th { vec![43u16, 120, 144, 255, 256, 257, 512, 900] } else { vec![120u16, 144, 256] } {
 		for blocks in if th { expired.clone() } else { vec![0, 12, 13, 14, 20] } {
 			v.push(Case::ExpiredCustomCltv { blocks, delta });
 		}
